@@ -5,7 +5,7 @@ import time
 
 from common import REPO, Rule, finish
 from hirtab import ANY, C, T, adt_variants, callees, candidates, lit_value
-from hirutil import find, lit_str, strip, walk
+from hirutil import callee, find, lit_str, strip, walk
 
 ENTITIES = {"<": "&lt;", ">": "&gt;", "&": "&amp;", "'": "&apos;", '"': "&quot;"}
 
@@ -29,6 +29,124 @@ def native_closures(facts, fn_rx, crate):
     return out
 
 
+
+
+def str_arrays(facts, crate):
+    """constant arrays of string literals of a crate: def -> [strings]"""
+    out = {}
+    for f in facts.hir(crate):
+        if str(f.get("kind", "")).startswith("Const") or str(f.get("kind", "")).startswith("Static"):
+            a = strip(f["body"])
+            if a.get("k") == "Array" and a["xs"] and all(lit_str(strip(x)) is not None for x in a["xs"]):
+                out[f["def"]] = [lit_str(strip(x)) for x in a["xs"]]
+    return out
+
+
+def rule_html_tables(facts):
+    """The tables are found by their content and the natives by their registered names; how the tables are used
+    (which one is searched, which one is emitted) is read off the calls, following first-party helpers."""
+    t1 = Rule("T13.1", "HTML escaping: the table of metacharacters and the table of entities have equal length and are pairwise the HTML entity table for < > & ' \" "
+              "(all five covered); escaping searches the characters and emits the entities, unescaping searches the entities and emits the characters, and neither "
+              "applies the pairs one after the other (a second pass would decode `&amp;lt;` twice)", floor=7)
+    arrays = str_arrays(facts, "jaq_std")
+    CH = [d for d, xs in arrays.items() if set(xs) == set(ENTITIES)]
+    EN = [d for d, xs in arrays.items() if set(xs) == set(ENTITIES.values())]
+    if len(CH) != 1 or len(EN) != 1:
+        metas = [d for d, xs in arrays.items() if set(xs) & set(ENTITIES) and set(xs) <= set(ENTITIES) | {"`", "="}]
+        if len(metas) == 1 and len(EN) <= 1:
+            t1.violate("missing", f"HTML escaping does not escape {sorted(set(ENTITIES) - set(arrays[metas[0]]))}", where=None)
+        else:
+            t1.missing_anchor(f"the table of the five HTML metacharacters ({len(CH)} found) and the table of their entities ({len(EN)} found)")
+        return t1
+    ch, en = arrays[CH[0]], arrays[EN[0]]
+    if len(ch) != len(en):
+        t1.violate("length", f"HTML tables differ in length ({len(ch)} characters, {len(en)} entities): every later pair is shifted")
+    for p, r in zip(ch, en):
+        t1.examined(p, True, {"char": p, "entity": r})
+        if ENTITIES.get(p) != r:
+            t1.violate(f"pair/{p}", f"HTML escaping maps `{p}` to `{r}`; the entity table says `{ENTITIES.get(p)}`")
+    TAB = {CH[0]: "characters", EN[0]: "entities"}
+    nat = native_closures(facts, r"^jaq_std::format$", "jaq_std")
+
+    SEARCH_CALL = re.compile(r"aho_corasick::.*::(new|new_auto_configured|build)$|AhoCorasickBuilder")
+    SEARCH_METH = {"position", "rposition", "find", "any", "contains", "find_map", "starts_with", "binary_search"}
+    EMIT_METH = {"replace_all_bytes", "replace_all", "replace_all_with", "replace_all_with_bytes"}
+    SEQ_REPLACE = re.compile(r"(bstr::ext_slice::ByteSlice|bstr::ext_vec::ByteVec|core::str::<impl str>|alloc::str::<impl str>)::(replace|replacen|replace_with|replace_range)$")
+
+    def analyse(root):
+        roles = {"searched": set(), "emitted": set(), "sequential": []}
+
+        def table_of(e, env):
+            e = strip(e)
+            while isinstance(e, dict) and e.get("k") in ("MethodCall",) and e["m"]["name"] in ("iter", "as_slice", "as_ref", "into_iter", "to_vec", "clone", "copied", "cloned", "rev"):
+                e = strip(e["recv"])
+            if isinstance(e, dict) and e.get("k") == "Path":
+                d = e["path"].get("def")
+                if d in TAB:
+                    return TAB[d]
+                return env.get(e["path"].get("id"))
+            return None
+
+        def visit(expr, env, depth):
+            def f(n, d):
+                k = n.get("k")
+                if k == "Index":
+                    t = table_of(n.get("base") or n.get("e") or {}, env)
+                    if t:
+                        roles["emitted"].add(t)
+                if k in ("Call", "MethodCall"):
+                    c = callee(n) or ""
+                    args = ([n["recv"]] if k == "MethodCall" and "recv" in n else []) + n.get("args", [])
+                    tabs = [table_of(a, env) for a in args]
+                    if SEARCH_CALL.search(c):
+                        roles["searched"] |= {t for t in tabs if t}
+                    elif k == "MethodCall" and n["m"]["name"] in EMIT_METH:
+                        roles["emitted"] |= {t for t in tabs[1:] if t}
+                    elif k == "MethodCall" and n["m"]["name"] in SEARCH_METH and tabs and tabs[0]:
+                        roles["searched"].add(tabs[0])
+                    elif SEQ_REPLACE.search(c):
+                        roles["sequential"].append(n["sp"])
+                    elif k == "MethodCall" and n["m"]["name"] in ("zip", "fold", "for_each", "try_fold") and any(tabs):
+                        roles.setdefault("iterated", set()).update(t for t in tabs if t)
+                    if depth > 0 and c.startswith("jaq_std::"):
+                        fn = facts.hir_fn(c)
+                        if fn is not None and any(tabs) or (depth > 0 and c.startswith("jaq_std::") and facts.hir_fn(c) is not None and c not in seen_fn):
+                            fn = facts.hir_fn(c)
+                            seen_fn.add(c)
+                            pids = [[b["id"] for b in find(p_, lambda x: x.get("k") == "Bind")] for p_ in fn["params"]]
+                            env2 = {}
+                            call_args = n.get("args", []) if k == "Call" else args
+                            for ids, a in zip(pids, call_args):
+                                t = table_of(a, env)
+                                if t and ids:
+                                    env2[ids[0]] = t
+                            visit(fn["body"], env2, depth - 1)
+                if k == "Path" and (n["path"].get("dk") or "") == "Fn" and (n["path"].get("def") or "").startswith("jaq_std::") and depth > 0 and n["path"]["def"] not in seen_fn:
+                    fn = facts.hir_fn(n["path"]["def"])   # a function passed by name (e.g. `map_utf8_str(escape_html)`)
+                    if fn is not None:
+                        seen_fn.add(n["path"]["def"])
+                        visit(fn["body"], {}, depth - 1)
+            walk(expr, f)
+        seen_fn = set()
+        visit(root, {}, 3)
+        return roles
+
+    for name, want_s, want_e in (("escape_html", "characters", "entities"), ("unescape_html", "entities", "characters")):
+        c = nat.get(name)
+        if c is None:
+            t1.missing_anchor(f"native {name}")
+            continue
+        r = analyse(c)
+        t1.examined(name, True, {"native": name, "searches": sorted(r["searched"]), "emits": sorted(r["emitted"]), "per_pair_replacements": len(r["sequential"])})
+        if r["sequential"] and (r.get("iterated") or not r["searched"]):
+            t1.violate(f"native/{name}/sequential", f"`{name}` applies the table pair by pair (a replacement per pair): text produced by one pair is rewritten by a later one (`&amp;lt;` would decode to `<`)", where=r["sequential"][0])
+        if r["searched"] and r["searched"] != {want_s}:
+            t1.violate(f"native/{name}", f"`{name}` searches for the {sorted(r['searched'])} (expected the {want_s}): the tables are used the wrong way round", where=c["sp"])
+        if r["emitted"] and r["emitted"] != {want_e}:
+            t1.violate(f"native/{name}/emit", f"`{name}` emits the {sorted(r['emitted'])} (expected the {want_e}): the tables are used the wrong way round", where=c["sp"])
+        if not r["searched"] and not r["emitted"] and not r["sequential"]:
+            t1.notes.append(f"{name}: how the tables are used was not recognised (no verdict on the direction)")
+    return t1
 
 def rule_char_decoder(facts, rid):
     t4 = Rule(rid, "every site that turns a text string into character counts or character positions (length, indices, slicing, split on the empty string, "
@@ -108,49 +226,7 @@ def run(facts, tier):
     rules = []
 
     # ---------------- T13.1 HTML entity table
-    t1 = Rule("T13.1", "HTML escaping: the pattern and replacement tables have equal length, are pairwise the HTML entity table for < > & ' \", cover all five metacharacters, and unescaping uses the same two tables swapped", floor=8)
-    pats = const_array(facts, r"^jaq_std::format::HTML_PATS$", "jaq_std")
-    reps = const_array(facts, r"^jaq_std::format::HTML_REPS$", "jaq_std")
-    if pats is None or reps is None:
-        t1.missing_anchor("HTML_PATS / HTML_REPS")
-    else:
-        if len(pats) != len(reps):
-            t1.violate("length", f"HTML tables differ in length ({len(pats)} patterns, {len(reps)} replacements): every later pair is shifted")
-        for p, r in zip(pats, reps):
-            ok = ENTITIES.get(p) == r
-            t1.examined(p, True, {"char": p, "entity": r})
-            if not ok:
-                t1.violate(f"pair/{p}", f"HTML escaping maps `{p}` to `{r}`; the entity table says `{ENTITIES.get(p)}`")
-        missing = set(ENTITIES) - set(pats)
-        if missing:
-            t1.violate("missing", f"HTML escaping does not escape {sorted(missing)}")
-        nat = native_closures(facts, r"^jaq_std::format$", "jaq_std")
-        for name, want in (("escape_html", ("HTML_PATS", "HTML_REPS")), ("unescape_html", ("HTML_REPS", "HTML_PATS"))):
-            c = nat.get(name)
-            got = None
-            if c is not None:
-                for call in find(c, lambda n: n.get("k") == "Call" and (strip(n["f"]).get("path") or {}).get("def") == "jaq_std::replace"):
-                    got = tuple(((strip(a).get("path") or {}).get("def") or "?").split("::")[-1] for a in call["args"][1:3])
-            t1.examined(name, True, {"native": name, "tables": got})
-            if got != want:
-                t1.violate(f"native/{name}", f"`{name}` calls replace with tables {got}, expected {want}")
-        rp = facts.hir_fn("jaq_std::replace")
-        if rp is None:
-            t1.missing_anchor("jaq_std::replace")
-        else:
-            cl = callees(rp["body"])
-            ok = any(c.endswith("AhoCorasick::new") for c in cl) and any(c.endswith("replace_all_bytes") for c in cl)
-            ids = [b["id"] for p in rp["params"] for b in find(p, lambda n: n.get("k") == "Bind")]
-            order = []
-            for call in find(rp["body"], lambda n: n.get("k") in ("Call", "MethodCall")):
-                for a in call.get("args", []):
-                    x = strip(a)
-                    if x.get("k") == "Path" and x["path"].get("id") in ids:
-                        order.append(ids.index(x["path"]["id"]))
-            t1.examined("replace", True, {"replace_uses": "aho-corasick leftmost replace", "parameter_use_order": order})
-            if not ok or order != [1, 0, 2]:
-                t1.violate("replace", f"`replace` no longer builds the automaton from its patterns and replaces with its replacements in that order (uses {order})", where=rp["sp"])
-    rules.append(t1.finish())
+    rules.append(rule_html_tables(facts).finish())
 
     # ---------------- T13.2 @sh
     t2 = Rule("T13.2", "shell quoting: the only replacement is ' -> '\\'' and @sh wraps each string in single quotes", floor=2)
